@@ -6,6 +6,7 @@ pub mod c02;
 pub mod c03;
 pub mod c04;
 pub mod c05;
+pub mod c05_nodes;
 pub mod c06;
 pub mod c06_nodes;
 pub mod c07;
